@@ -184,6 +184,32 @@ def read_windows(bs, acc, ctx, srcbits):
                         f"bitstring.{cls}(bytes=memoryview(__import__('array').array('I', {payload!r})), offset={k}, length={n})"))
         if payload:
             rts.append(('memoryview-strided', lambda: c(bytes=memoryview(R.interleave(payload))[::2], offset=k, length=n), f"bitstring.{cls}(bytes=memoryview({R.interleave(payload)!r})[::2], offset={k}, length={n})"))
+        if payload:
+            # BytesIO objects whose cursor is not at the start: filled by write(), already used once, partly read
+            def bio_written():
+                f = io.BytesIO()
+                f.write(payload)
+                return c(f, offset=k, length=n)
+
+            def bio_reused():
+                f = io.BytesIO(payload)
+                bs.Bits(f)
+                return c(f, offset=k, length=n)
+            rts.append(('bytesio-written', bio_written, f"(lambda f: (f.write({payload!r}), bitstring.{cls}(f, offset={k}, length={n}))[1])(io.BytesIO())"))
+            rts.append(('bytesio-reused', bio_reused, f"(lambda f: (bitstring.Bits(f), bitstring.{cls}(f, offset={k}, length={n}))[1])(io.BytesIO({payload!r}))"))
+            if valid and k == 0 and n == N:
+                def bio_written_whole():
+                    f = io.BytesIO()
+                    f.write(payload)
+                    return c(f)
+
+                def bio_reused_whole():
+                    f = io.BytesIO(payload)
+                    c(f)
+                    f.read(1)
+                    return c(f)
+                rts.append(('bytesio-written-whole', bio_written_whole, f"(lambda f: (f.write({payload!r}), bitstring.{cls}(f))[1])(io.BytesIO())"))
+                rts.append(('bytesio-reused-whole', bio_reused_whole, f"(lambda f: (bitstring.{cls}(f), f.read(1), bitstring.{cls}(f))[2])(io.BytesIO({payload!r}))"))
         if k == 0:
             rts.append(('bytes-len', lambda: c(bytes=payload, length=n), f"bitstring.{cls}(bytes={payload!r}, length={n})"))
         if valid and k + n == N:
